@@ -454,11 +454,8 @@ def tasks_for(tier, seed):
     return tasks, specs
 
 
-def run(tier="quick", seed=0):
-    quiet()
-    import cobra  # noqa: F401
-    t0 = time.time()
-    tasks, specs = tasks_for(tier, seed)
+def execute(tasks, tier="quick", seed=0):
+    """run the tasks in the fork pool -> (failures list, number executed, number non-trivial, outcome table)"""
     order = list(range(len(tasks)))
     random.Random(seed).shuffle(order)
     shuffled = [tasks[i] for i in order]
@@ -483,11 +480,21 @@ def run(tier="quick", seed=0):
                 failures[k] = (text, task)
     out_f = [{"key": k, "failure": f"{text} [{counts[k]} case(s) with this key]", "replay": dict(task, key=k)}
              for k, (text, task) in sorted(failures.items())]
+    return out_f, len(res), distinct, outcomes
+
+
+def run(tier="quick", seed=0):
+    quiet()
+    import cobra  # noqa: F401
+    t0 = time.time()
+    tasks, specs = tasks_for(tier, seed)
+    out_f, n, distinct, outcomes = execute(tasks, tier, seed)
     return {
-        "evaluations": len(res),
+        "evaluations": n,
         "distinct_nontrivial": distinct,
         "rule": "case = (model, analysis with one argument combination, inside/outside a user context); each runs the analysis "
-                "twice; distinct by construction; non-trivial = the case ran to the end (the analysis returned or raised)",
+                "twice; distinct by construction; non-trivial = the case ran to the end (the analysis returned or raised; "
+                "big-M formulations on models with infinite bounds are skipped and not counted)",
         "bounds": {"models": len(specs), "hand_made": len(HAND), "random": len(specs) - len(HAND),
                    "analysis_variants": len(get_analyses()), "analyses": len({a.split(':')[0] for a in get_analyses()}),
                    "contexts": 2, "outcomes": outcomes, "seconds": round(time.time() - t0, 1)},
